@@ -1245,13 +1245,23 @@ def call_numpy(it, f, args, kwargs, node):
             ushape = (UNK,) + tuple(sh[1:]) if not is_none(ax) else (UNK,)
         u = it.fresh(T.app("unique", t) if t is not None else None, ushape, "ndarray", node)
         u.obj.unique_of = x
+        out = [u]
+        rx = kwargs.get("return_index")
+        if rx is not None and it.truth(rx):
+            # first occurrences: one index per distinct value, not followed further
+            fi = it.fresh(None, (UNK,), "ndarray", node)
+            fi.obj.valkind = "index"
+            out.append(fi)
         if ri is not None and it.truth(ri):
             inv = it.fresh(T.app("unique_inverse", t) if t is not None else None, (sh[0],) if sh else (UNK,), "ndarray", node)
             inv.obj.valkind = "index"
             inv.obj.inverse_of = x
             inv.obj.unique_partner = u.obj
-            return VTuple([u, inv])
-        return u
+            out.append(inv)
+        rc = kwargs.get("return_counts")
+        if rc is not None and it.truth(rc):
+            out.append(it.fresh(None, (UNK,), "ndarray", node))
+        return VTuple(out) if len(out) > 1 else u
     if f in ("prod", "sum", "mean", "all", "any"):
         x = args[0]
         if isinstance(x, VTens):
